@@ -1,9 +1,15 @@
-"""C04 -- decided with spec/Session.tla; see harness/session_props.py for the plan and DESIGN.md section 5."""
-from harness import session_check, session_props
+"""
+C04 -- decided with spec/Session.tla; see harness/session_props.py for the plan and DESIGN.md section 5. The position
+arithmetic that "errors name the culprit" rests on has a specification of its own, spec/Location.tla (harness/location.py).
+"""
+from harness import location, session_check, session_props
 
 
 def run(tier, report):
-    return session_props.run_plan("C04", tier, report)
+    return session_props.run_plan("C04", tier, report, extra=location.run_extra)
 
 
-replay = session_check.replay
+def replay(behaviour, report=None):
+    if "location" in behaviour:
+        return location.replay(behaviour)
+    return session_check.replay(behaviour, report)
